@@ -186,14 +186,27 @@ def gen_key_case(rng):
     return {"kind": "key", "fields": fields, "vals": [rng.randint(-5, 50) for _ in fields], "valkind": rng.choice(["int", "str"]), "pre": pre}
 
 
+def gen_vocab_case(rng):
+    n = rng.weighted([(0, 1), (1, 1), (3, 3), (6, 3), (12, 2)])
+    ids = rng.sample(list(range(100, 160)), n)             # insertion order, not sorted
+    if n >= 2 and ids == sorted(ids):
+        ids = ids[::-1]
+    return {"kind": "vocab", "idkind": rng.choice(["int", "str"]), "ids": ids, "named": rng.chance(1, 2),
+            "probe": rng.sample(list(range(100, 165)), 6)}
+
+
 def gen_ds(rng, tag, item_kind, extra_entity):
     items = rng.sample(list(range(10, 30)), rng.randint(3, 7))
     users = list(range(1, rng.randint(3, 6)))
     pairs = set()
     for _ in range(rng.randint(3, 10)):
         pairs.add((rng.choice(users), rng.choice(items)))
-    ratings = [[u, i, rng.randint(1, 10)] for (u, i) in sorted(pairs)]
-    ds = {"name": f"ds{tag}", "item_kind": item_kind, "items": sorted(items), "ratings": ratings,
+    # entities and interactions arrive in two batches and the later batch brings smaller identifiers, so the
+    # vocabularies are NOT in sorted identifier order (new entities are appended)
+    ratings = rng.shuffle([[u, i, rng.randint(1, 10)] for (u, i) in sorted(pairs)])
+    items = sorted(items, reverse=True) if rng.chance(1, 2) else rng.shuffle(items)
+    ds = {"name": f"ds{tag}", "item_kind": item_kind, "items": items, "ratings": ratings,
+          "item_split": rng.randint(1, len(items) - 1), "rating_split": rng.randint(0, len(ratings)),
           "title": rng.subset(sorted(items), 2, 3), "genres": rng.chance(1, 2), "emb": rng.chance(1, 2), "tags": rng.chance(1, 2),
           "extra": ([rng.randint(1, 9) for _ in range(rng.randint(1, 3))] if extra_entity else None), "salt": rng.below(1000)}
     return ds
@@ -235,6 +248,8 @@ def gen_cases(rng, tier):
         cases.append(gen_coll_case(rng.fork(("coll", k)), malformed=(k % 10 == 9)))
     for k in range(30 if quick else 300):
         cases.append(gen_key_case(rng.fork(("key", k))))
+    for k in range(40 if quick else 400):
+        cases.append(gen_vocab_case(rng.fork(("vocab", k))))
     only = os.environ.get("C15_KINDS")           # development aid: restrict to some kinds
     if only:
         cases = [c for c in cases if c["kind"] in only.split(",")]
@@ -459,6 +474,20 @@ def run_key(case):
             "cache_after": _key_cache()}
 
 
+def run_vocab(case):
+    kind = case["idkind"]
+    v = Vocabulary([_mkid(kind, i) for i in case["ids"]], name="item" if case["named"] else None, reorder=False)
+    probe = np.array([_mkid(kind, i) for i in case["probe"]], dtype=object if kind == "str" else np.int64)
+
+    def view(x):
+        return {"ids": [_unid(t) for t in x.ids().tolist()], "name": x.name, "size": len(x),
+                "numbers": [int(t) for t in x.numbers(probe, missing="negative").tolist()]}
+    before = view(v)
+    v2 = pickle.loads(pickle.dumps(v))
+    import copy
+    return {"before": before, "after": view(v2), "after_deepcopy": view(copy.deepcopy(v)), "equal": bool(v2 == v)}
+
+
 # ---- datasets ------------------------------------------------------------------------------
 
 def _build_ds(spec):
@@ -466,10 +495,22 @@ def _build_ds(spec):
     kind = spec["item_kind"]
     items = [_mkid(kind, i) for i in spec["items"]]
     dsb = DatasetBuilder(name=spec["name"])
-    dsb.add_entities("item", items)
-    df = pd.DataFrame({"user_id": [r[0] for r in spec["ratings"]], "item_id": [_mkid(kind, r[1]) for r in spec["ratings"]],
-                       "rating": [r[2] / 2.0 for r in spec["ratings"]]})
-    dsb.add_interactions("rating", df, entities=["user", "item"], missing="insert", default=True)
+    isplit = spec.get("item_split", len(items))
+    dsb.add_entities("item", items[:isplit])
+    if items[isplit:]:
+        dsb.add_entities("item", items[isplit:])
+    rsplit = spec.get("rating_split", len(spec["ratings"]))
+    first = True
+    for rows in (spec["ratings"][:rsplit], spec["ratings"][rsplit:]):
+        if not rows:
+            continue
+        df = pd.DataFrame({"user_id": [r[0] for r in rows], "item_id": [_mkid(kind, r[1]) for r in rows],
+                           "rating": [r[2] / 2.0 for r in rows]})
+        if first:
+            dsb.add_interactions("rating", df, entities=["user", "item"], missing="insert", default=True)
+        else:
+            dsb.add_interactions("rating", df, entities=["user", "item"], missing="insert")
+        first = False
     if spec["title"]:
         ids = [_mkid(kind, i) for i in spec["title"]]
         dsb.add_scalar_attribute("item", "title", ids, [f"T{spec['salt']}-{i}" for i in spec["title"]])
@@ -536,7 +577,8 @@ def run_dsrt(case):
         return {"files": files, "load_equal": v == v2, "pickle_equal": v == v3,
                 "load_diff": [k for k in v if v[k] != v2.get(k)][:5], "pickle_diff": [k for k in v if v[k] != v3.get(k)][:5],
                 "container": c, "container_loaded": c2, "container_pickled": c3,
-                "n_attrs": sum(1 for k in v if k.startswith("attr:"))}
+                "n_attrs": sum(1 for k in v if k.startswith("attr:")),
+                "view_ids": {"item": [str(x) for x in v["ent:item"]], "user": [int(x) for x in v["ent:user"]]}}
     finally:
         shutil.rmtree(d, ignore_errors=True)
 
@@ -739,7 +781,7 @@ def run_crash(case):
 
 def run_impl(case):
     _setup()
-    return {"crash": run_crash, "dsrt": run_dsrt, "il": run_il, "coll": run_coll, "key": run_key}[case["kind"]](case)
+    return {"crash": run_crash, "dsrt": run_dsrt, "il": run_il, "coll": run_coll, "key": run_key, "vocab": run_vocab}[case["kind"]](case)
 
 
 # ---------------------------------------------------------------------------------------------
@@ -878,8 +920,13 @@ def term_dsrt(case, obs):
     return f"lres_eqb (load (save_done None {ds} [])) {loaded}"
 
 
+def term_vocab(case, obs):
+    # default pickling of a Vocabulary is the identity on its identifier array: same identifiers, same numbering
+    return f"lZeqb {c_lz(case['ids'])} {c_lz(obs['after']['ids'])} && lZeqb {c_lz(obs['before']['numbers'])} {c_lz(obs['after']['numbers'])}"
+
+
 def coq_term(case, obs):
-    return {"crash": term_crash, "dsrt": term_dsrt, "il": term_il, "coll": term_coll, "key": term_key}[case["kind"]](case, obs)
+    return {"crash": term_crash, "dsrt": term_dsrt, "il": term_il, "coll": term_coll, "key": term_key, "vocab": term_vocab}[case["kind"]](case, obs)
 
 
 # ---------------------------------------------------------------------------------------------
@@ -1011,8 +1058,21 @@ def oracle_crash(case, obs):
     return v
 
 
+def oracle_vocab(case, obs):
+    v = []
+    for how in ("after", "after_deepcopy"):
+        a, b = obs[how], obs["before"]
+        if a["ids"] != b["ids"] or a["numbers"] != b["numbers"]:
+            v.append(("vocabulary:pickle-numbering", f"a vocabulary with identifiers {b['ids']} (in number order) came back as {a['ids']} "
+                      f"({'pickle' if how == 'after' else 'deepcopy'}): numbers of {case['probe']} changed from {b['numbers']} to {a['numbers']}"))
+            break
+    if obs["after"]["name"] != obs["before"]["name"] or obs["after"]["size"] != obs["before"]["size"] or not obs["equal"]:
+        v.append(("vocabulary:pickle", "an unpickled vocabulary differs from the original in name, size or equality"))
+    return v
+
+
 def oracle(case, obs):
-    return {"crash": oracle_crash, "dsrt": oracle_dsrt, "il": oracle_il, "coll": oracle_coll, "key": oracle_key}[case["kind"]](case, obs)
+    return {"vocab": oracle_vocab, "crash": oracle_crash, "dsrt": oracle_dsrt, "il": oracle_il, "coll": oracle_coll, "key": oracle_key}[case["kind"]](case, obs)
 
 
 def nontrivial(case, obs):
@@ -1026,6 +1086,8 @@ def nontrivial(case, obs):
     if k == "coll":
         ls = obs["states"]
         return obs["after"] is not None and len(ls) >= 2 and (any(s["len"] == 0 for s in ls) or len({tuple(sorted(f[0] for f in s["fields"])) for s in ls}) > 1)
+    if k == "vocab":
+        return len(case["ids"]) >= 3
     return len(case["fields"]) >= 2
 
 
@@ -1067,6 +1129,12 @@ def counters(case, obs):
             yield "coll:mixed-ordering"
     elif k == "dsrt":
         yield "dsrt:attrs=" + str(obs["n_attrs"])
+        for e in ("item", "user"):
+            ids = obs["view_ids"].get(e) or []
+            yield f"dsrt:{e}-vocabulary-" + ("sorted" if ids == sorted(ids) else "not-sorted")
+    elif k == "vocab":
+        yield "vocab:idkind=" + case["idkind"]
+        yield "vocab:size=" + str(min(len(case["ids"]), 6))
 
 
 def sample(case, obs):
@@ -1100,8 +1168,14 @@ def extra(rep, tier, rng):
     for u in range(1, 31):
         for i in rng.sample(list(range(1, 26)), rng.randint(4, 10)):
             rows.append((u, i, float(rng.randint(1, 10)) / 2))
-    df = pd.DataFrame(rows, columns=["user_id", "item_id", "rating"])
-    ds = from_interactions_df(df)
+    df = pd.DataFrame(rng.shuffle(rows), columns=["user_id", "item_id", "rating"])
+    # two batches, the later one bringing smaller identifiers: vocabularies are not in sorted identifier order
+    hi, lo = df[(df.user_id > 12) & (df.item_id > 9)], df[~((df.user_id > 12) & (df.item_id > 9))]
+    dsb = DatasetBuilder()
+    dsb.add_interactions("rating", hi, entities=["user", "item"], missing="insert", default=True)
+    dsb.add_interactions("rating", lo, entities=["user", "item"], missing="insert")
+    ds = dsb.build()
+    assert ds.items.ids().tolist() != sorted(ds.items.ids().tolist()) and ds.users.ids().tolist() != sorted(ds.users.ids().tolist())
     specs = [("lenskit.basic.bias", "BiasScorer", {}), ("lenskit.basic.popularity", "PopScorer", {}),
              ("lenskit.knn", "ItemKNNScorer", {"k": 5}), ("lenskit.knn", "UserKNNScorer", {"k": 5}),
              ("lenskit.als", "BiasedMFScorer", {"features": 4, "epochs": 3}), ("lenskit.als", "ImplicitMFScorer", {"features": 4, "epochs": 3}),
